@@ -17,7 +17,7 @@ c_PosB == <<<<2, 1, 0>>, <<-1, 0, 2>>, <<0, -3, 1>>>>
 c_PosC == <<<<0, 1, 1>>, <<3, 0, -1>>, <<-2, 2, 0>>>>
 c_QA == <<<<0, 0, 1>>, <<1, 1, 0>>, <<-1, 2, 2>>>>
 c_QB == <<<<1, 0, 0>>, <<0, -1, 2>>, <<-2, -2, 1>>>>
-c_QC == <<<<1, 0, 1>>, <<-3, 1, 0>>, <<1, 3, -2>>>>
+c_QC == <<<<1, 0, 1>>, <<-3, 1, 0>>, <<2, 2, -1>>>>
 
 \* the geometry is printed once (channel GEOM) so that the harness evaluates 1/(1+d) on the specification's integers
 ASSUME PrintT(<<"GEOM", ToJson(Geometry)>>)
